@@ -2,6 +2,7 @@ package remote
 
 import (
 	"bytes"
+	"errors"
 	"slices"
 
 	"github.com/NethermindEth/juno/grpc/gen"
@@ -20,6 +21,8 @@ type iterator struct {
 	lowerBound []byte
 	upperBound []byte // nil: none
 	positioned bool
+	// ownsTx: the iterator was created by DB.NewIterator on a transaction of its own, which ends with it.
+	ownsTx bool
 }
 
 func (i *iterator) doOpAndUpdate(op gen.Op, k []byte) error {
@@ -105,5 +108,9 @@ func (i *iterator) Seek(key []byte) bool {
 }
 
 func (i *iterator) Close() error {
-	return i.doOpAndUpdate(gen.Op_CLOSE, nil)
+	err := i.doOpAndUpdate(gen.Op_CLOSE, nil)
+	if i.ownsTx {
+		err = errors.Join(err, i.tx.Discard())
+	}
+	return err
 }
